@@ -150,7 +150,8 @@ type tokResult struct {
 
 // hasTokenOps reports whether fn touches a token channel or calls lockWrite.
 func (c *Ctx) hasTokenOps(fn *ssa.Function, lockWrite *ssa.Function) bool {
-	for _, b := range fn.Blocks {
+	// (the function and the helpers introduced later that the path engine expands inside it)
+	for _, b := range c.regionBlocks(fn) {
 		for _, ins := range b.Instrs {
 			switch x := ins.(type) {
 			case *ssa.UnOp:
@@ -476,11 +477,16 @@ func (c *Ctx) tokFunc(fn *ssa.Function, sum int, which map[string]bool, res *tok
 		}
 		bi := 0
 		var lastSig *pathx.Event // last signal-flip call on this path
+		// (the blocks of helpers expanded in place count: a loop inside one starts segments of its own)
+		blks, blkEv := p.AllBlocks, p.AllBlockEv
+		if len(blks) != len(blkEv) || len(blks) == 0 {
+			blks, blkEv = p.Blocks, p.BlockEv
+		}
 		for i := range p.Events {
-			for bi < len(p.BlockEv) && p.BlockEv[bi] == i {
+			for bi < len(blkEv) && blkEv[bi] == i {
 				if p.Start == fn.Blocks[0] {
-					if _, ok := headerState[p.Blocks[bi]]; !ok {
-						headerState[p.Blocks[bi]] = m.snapshot()
+					if _, ok := headerState[blks[bi]]; !ok {
+						headerState[blks[bi]] = m.snapshot()
 					}
 				}
 				bi++
